@@ -42,6 +42,45 @@ type Solver struct {
 
 	cache map[string]Result
 	buf   strings.Builder
+
+	emittedSet []bool
+	Fallbacks  []*Solver // tried in order when this solver answers unknown
+	NFallback  int
+
+	preferFallback bool
+}
+
+func (s *Solver) isEmitted(t *Term) bool {
+	return t.ID < len(s.emittedSet) && s.emittedSet[t.ID]
+}
+
+func (s *Solver) markEmitted(t *Term) {
+	for t.ID >= len(s.emittedSet) {
+		s.emittedSet = append(s.emittedSet, make([]bool, len(s.emittedSet)+1024)...)
+	}
+	s.emittedSet[t.ID] = true
+}
+
+// NewPortfolio starts z3 with a short per-query timeout and cvc5 / z3-new as fallbacks
+// with the full timeout.
+func NewPortfolio(timeoutMs int) (*Solver, error) {
+	first := 1500
+	if timeoutMs < first {
+		first = timeoutMs
+	}
+	s, err := NewSolver("z3", first)
+	if err != nil {
+		return nil, err
+	}
+	for _, k := range []string{"cvc5", "z3-new"} {
+		f, err := NewSolver(k, timeoutMs)
+		if err != nil {
+			continue
+		}
+		s.Fallbacks = append(s.Fallbacks, f)
+	}
+	s.Name = "portfolio(z3 4.8.12 → cvc5 → z3 5.1)"
+	return s, nil
 }
 
 // NewSolver starts a solver. kind: "z3", "z3-new", "cvc5".
@@ -86,6 +125,7 @@ func (s *Solver) start() error {
 	s.in = in
 	s.out = bufio.NewReaderSize(out, 1<<16)
 	s.epoch++
+	s.emittedSet = nil
 	s.send("(set-option :print-success false)\n")
 	if s.Name != "cvc5" {
 		s.send(fmt.Sprintf("(set-option :timeout %d)\n", s.Timeout))
@@ -96,6 +136,9 @@ func (s *Solver) start() error {
 
 // Close terminates the solver.
 func (s *Solver) Close() {
+	for _, f := range s.Fallbacks {
+		f.Close()
+	}
 	if s.cmd != nil {
 		s.in.Close()
 		s.cmd.Process.Kill()
@@ -105,7 +148,12 @@ func (s *Solver) Close() {
 }
 
 func (s *Solver) restart() {
-	s.Close()
+	if s.cmd != nil {
+		s.in.Close()
+		s.cmd.Process.Kill()
+		s.cmd.Wait()
+		s.cmd = nil
+	}
 	if err := s.start(); err != nil {
 		panic(err)
 	}
@@ -127,14 +175,14 @@ func (s *Solver) ref(t *Term) string {
 	case OpConst:
 		return constStr(t)
 	case OpVar:
-		if t.emitted != s.epoch {
-			t.emitted = s.epoch
+		if !s.isEmitted(t) {
+			s.markEmitted(t)
 			fmt.Fprintf(&s.buf, "(declare-const |%s| %s)\n", t.Name, sortStr(t.W))
 		}
 		return "|" + t.Name + "|"
 	}
 	name := "t" + strconv.Itoa(t.ID)
-	if t.emitted == s.epoch {
+	if s.isEmitted(t) {
 		return name
 	}
 	// iterative post-order to avoid deep recursion on long chains
@@ -149,7 +197,7 @@ func (s *Solver) ref(t *Term) string {
 		if it.next < len(cur.Args) {
 			a := cur.Args[it.next]
 			it.next++
-			if a.Op != OpConst && a.emitted != s.epoch {
+			if a.Op != OpConst && !s.isEmitted(a) {
 				if a.Op == OpVar {
 					s.ref(a)
 				} else {
@@ -159,10 +207,10 @@ func (s *Solver) ref(t *Term) string {
 			continue
 		}
 		stack = stack[:len(stack)-1]
-		if cur.emitted == s.epoch {
+		if s.isEmitted(cur) {
 			continue
 		}
-		cur.emitted = s.epoch
+		s.markEmitted(cur)
 		s.define(cur)
 	}
 	return name
@@ -183,8 +231,8 @@ func (s *Solver) define(t *Term) {
 	if t.Op == OpUF {
 		// declare the function symbol once per epoch (tracked through a pseudo var)
 		key := Var("uf!"+t.Name+"!"+ufSig(t), 0)
-		if key.emitted != s.epoch {
-			key.emitted = s.epoch
+		if !s.isEmitted(key) {
+			s.markEmitted(key)
 			fmt.Fprintf(b, "(declare-fun |%s| (", t.Name)
 			for _, a := range t.Args {
 				b.WriteString(sortStr(a.W) + " ")
@@ -266,6 +314,22 @@ func (s *Solver) Check(pc []*Term, q *Term, vars []*Term) (Result, map[string]ui
 			return r, nil
 		}
 	}
+	if s.preferFallback && len(s.Fallbacks) > 0 {
+		t0 := time.Now()
+		r, mdl := s.Fallbacks[0].Check(pc, q, vars)
+		s.Seconds += time.Since(t0).Seconds()
+		if r != Unknown {
+			if r == Sat {
+				s.NSat++
+			} else {
+				s.NUnsat++
+			}
+			if key != "" {
+				s.cache[key] = r
+			}
+			return r, mdl
+		}
+	}
 	start := time.Now()
 	s.buf.Reset()
 	refs := make([]string, 0, len(pc)+1)
@@ -301,8 +365,14 @@ func (s *Solver) Check(pc []*Term, q *Term, vars []*Term) (Result, map[string]ui
 		// error: record, drain, restart the process to get back to a clean state
 		s.Errors = append(s.Errors, line)
 		s.restart()
-		s.NUnknown++
 		s.Seconds += time.Since(start).Seconds()
+		for _, f := range s.Fallbacks {
+			if r2, m2 := f.Check(pc, q, vars); r2 != Unknown {
+				s.NFallback++
+				return r2, m2
+			}
+		}
+		s.NUnknown++
 		return Unknown, nil
 	}
 	var model map[string]uint64
@@ -323,6 +393,21 @@ func (s *Solver) Check(pc []*Term, q *Term, vars []*Term) (Result, map[string]ui
 		}
 	}
 	s.send("(pop 1)\n")
+	if res == Unknown && len(s.Fallbacks) > 0 {
+		s.Seconds += time.Since(start).Seconds()
+		start = time.Now()
+		for _, f := range s.Fallbacks {
+			r2, m2 := f.Check(pc, q, vars)
+			if r2 != Unknown {
+				res, model = r2, m2
+				s.NFallback++
+				if s.NFallback >= 3 {
+					s.preferFallback = true
+				}
+				break
+			}
+		}
+	}
 	switch res {
 	case Sat:
 		s.NSat++
